@@ -1181,9 +1181,12 @@ func (c *dpCtx) fault(fk dpFaultKind, st *dpState, later []*dpVendor) (dpFaultLi
 			return no, false
 		}
 		v := *st.vendors[fk.k]
-		if fk.fam == fDupVenName {
+		switch {
+		case g.Chance(1, 3):
+			// the exact redeclaration: same name AND same number
+		case fk.fam == fDupVenName:
 			v.num = c.freshNum()
-		} else {
+		default:
 			v.name = c.fresh()
 		}
 		if g.Bool() {
